@@ -110,22 +110,10 @@ def streams(seed, tier):
         cases.append(G.case_prim(k % 2, 2, stack))
     # 8. onto an arbitrary state (bindings, pending flags, other stacks non-empty) and with instruction names
     #    registered by the host through InstructionSet::add after load()
-    from gen import stepgen
-    from gen.stategen import state as mk_state
-    st_cases = []
-    EXTRA = ["INTEGER.SQUARE", "HOST.PROBE", "SQ", "X", "tick", "7UP", "INF", "NAN", "inf", "42", "1e3", "-7", "TRUE", "1.5"]
-    for k in range({"quick": 1500, "thorough": 15000, "search": 6000}[tier]):
-        st = stepgen.rand_state(rng, names, some, maxdepth=3)
-        extra = rng.sample(EXTRA, rng.choice([0, 0, 1, 2, 3]))
-        bound = [b[0] for b in st["bind"]]
-        vocab = some + [rng.choice(names)] + extra + extra + bound + bound + ["X", "SQ", "INTEGER.SQUARE", "INF", "42", "TRUE", "1.5", "nan"]
-        toks = G.rand_tok_tree(rng, vocab, rng.randrange(0, 4), rng.randrange(0, 25))
-        toks = [t if rng.random() < 0.7 else rng.choice(vocab) for t in toks if t not in ("(", ")")] if rng.random() < 0.3 else toks
-        text = G.join_ws(rng, toks, k % 3 != 0)
-        st_cases.append(sx_str([k % 2, [], list(text), mk_state(**st), [[ord(c) for c in e] for e in extra]]))
+    st_cases = G.onto_state_cases(rng, names, some, {"quick": 1500, "thorough": 15000, "search": 6000}[tier])
     out.append(Stream("onto-any-state", "parse.st", "parse.st.check", st_cases,
                       "random token trees parsed onto random WHOLE states (0..3 name bindings whose names occur in the text, pending quote/send flags, all stacks non-empty) with 0..3 extra "
-                      "instruction names registered through InstructionSet::add after load(): EXEC = the specification over registered + added names, everything else untouched"))
+                      "instruction names registered through InstructionSet::add after load() (incl. names that lex as numbers: INF, 42, 1e3, TRUE); in 30% the same InstructionSet has first EXECUTED instruction items with unknown names spelled like names of the text: EXEC = the specification over registered + added names, everything else untouched"))
     out.append(Stream("primitives", "parse.prim", "parse.prim.check", cases,
                       "i32::from_str on number-like tokens, split_whitespace on random texts and on each whitespace / look-alike character, PushStack<Item>::to_string, PushParser::rec_push at depths 0..7 and 2^64-1 on stacks whose bottom chain ends in a list, an atom or nothing"))
     return out
